@@ -139,9 +139,10 @@ theorem tokenize_append {x y : Bytes} {ts ts' : List Tok} {r : Bytes} (hc : Clos
   htmlTokenize?_append hc hy
 
 /-- **a text followed by a tag** is one text token followed by the tokens of the rest: the only look-ahead of the
-tokenizer (`<` + letter, `/`, `!` or `?`). -/
+tokenizer (`<` + letter, `/`, `!` or `?`).  A text (`textOKB`) may hold `<` when the byte after it, inside the text, opens
+nothing (`a < b`, `1<2`); its last byte is not `<`. -/
 theorem tokenize_text_then_tag {tx y : Bytes} {c : Nat} {rest : Bytes} {ts' : List Tok} {r : Bytes}
-    (hne : tx ≠ []) (h60 : ∀ b ∈ tx, b ≠ 60) (hy0 : y = 60 :: c :: rest) (hop : isOpener c = true)
+    (hne : tx ≠ []) (h60 : textOKB tx = true) (hy0 : y = 60 :: c :: rest) (hop : isOpener c = true)
     (hy : htmlTokenize? y = some (ts', r)) :
     htmlTokenize? (tx ++ y) = some (⟨.text, tx, []⟩ :: ts', r) :=
   htmlTokenize?_text hne h60 hy0 hop hy
@@ -154,13 +155,13 @@ theorem stream_append {x y : Bytes} {ts ts' : List Tok} {r : Bytes} (hc : Closed
   streamTo_append hc hy
 
 theorem stream_text_then_tag {tx y : Bytes} {c : Nat} {rest : Bytes} {ts' : List Tok} {r : Bytes}
-    (hne : tx ≠ []) (h60 : ∀ b ∈ tx, b ≠ 60) (hy0 : y = 60 :: c :: rest) (hop : isOpener c = true)
+    (hne : tx ≠ []) (h60 : textOKB tx = true) (hy0 : y = 60 :: c :: rest) (hop : isOpener c = true)
     (hy : StreamTo y ts' r) : StreamTo (tx ++ y) (⟨.text, tx, []⟩ :: ts') r :=
   streamTo_text hne h60 hy0 hop hy
 
 /-- a text at the very end of the data IS ended by the end of the data (`cut`), but `filter` does not hold a plain
 text back: it still counts as not cut -/
-theorem stream_text_at_end {tx : Bytes} (hne : tx ≠ []) (h60 : ∀ b ∈ tx, b ≠ 60) :
+theorem stream_text_at_end {tx : Bytes} (hne : tx ≠ []) (h60 : textOKB tx = true) :
     StreamTo tx [⟨.text, tx, []⟩] [] :=
   streamTo_text_eof hne h60
 
@@ -307,14 +308,20 @@ example (n : Nat) : htmlTokenize (serializeList [nest n]) = (tokensOfList textTo
 
 /-- **`tokenize (serialize d) = tokensOf d` for every `Simple` document** (`SimpleL simpleLaws`,
 Proofs/FilterDomUniv.lean + FilterDomLaws.lean): any nesting and size;
-* element names: a letter followed by letters / digits, any case (the node name is the lower-cased display name);
+* element names: a letter followed by any ASCII bytes other than white space, `/`, `>` (what `read_tag_name` delimits: `-`,
+  `:`, `_`, `.`, digits … are name bytes), any case (the node name is the lower-cased display name);
 * attribute text: any sequence of (white space, key, nothing | `=`unquoted | `="…"` | `='…'`) + optional trailing white
   space, keys free of white space `/ = >`, unquoted values free of white space and `>`, not starting with a quote nor
   ending with `/`; for `/>` the last attribute is quoted or white space precedes the solidus;
 * ordinary elements (normal, void, self-closing) have a name outside the raw-text table; raw-text elements (script, style,
-  title, textarea, …, not plaintext) hold content free of `<`;
-* comments `<!--…-->` with a body free of `>` and `!`, doctype declarations (`<!` + any case variant of DOCTYPE + text free of `>` + `>`);
-* text nodes non-empty and free of `<`, no two adjacent — also as the LAST node of the document.
+  title, textarea, …, not plaintext) hold content in which every `<` is followed by a byte other than `<` and `!`, and every
+  `</` by the end of the content or a byte other than the first letter of the element name (`rawOK2`: tag-like text such as
+  `<p>`, `a<b`, `</p>` is inside; `<<`, `<!`, a final `<`, `</s…` in a script are not);
+* comments `<!--…-->` whose body may hold `>` and `!` but no `-->` / `--!>`, does not start with `>`, `->`, `!>` and does not
+  end with `--!` (`commentOK2`); doctype declarations (`<!` + any case variant of DOCTYPE + text free of `>` + `>`);
+  processing instructions / bogus comments `<?…>` free of `>`;
+* text nodes non-empty, no two adjacent — also as the LAST node of the document —, in which every `<` is followed, inside
+  the text, by a byte that opens nothing (not a letter, `/`, `!`, `?`): `a < b`, `1<2` are texts.
 Proved from W5's closed forms of the tokenizer's readers (Proofs/HtmlClosed*.lean) by induction over the document with
 `tokenize_append` and `tokenize_text_then_tag`; no vocabulary, no evaluation. -/
 theorem tokenize_serialize_universal (doc : List Node) (hs : SimpleL simpleLaws doc) :
@@ -333,14 +340,21 @@ theorem stream_serialize_universal (doc : List Node) (hs : SimpleL simpleLaws do
 
 /-- **End to end, universal**: for every `Simple` document (valid UTF-8) and every filter in its domain, the chain model
 with the C16 tokenizer — `FilterBodyAction::new`, one `filter` call, `end` — emits the serialisation of the reference
-edit.  No hypothesis about the tokenizer, no vocabulary restriction. -/
+edit.  No hypothesis about the tokenizer, no vocabulary restriction.  (`NoHeld`: see `noHeld_of_top_texts` below.) -/
 theorem end_to_end_universal (ev : Bytes → Bytes → Bool) (lower : String → String) (doc : List Node) (f : BodyFilter)
     (hs : SimpleL simpleLaws doc)
     (hu : utf8Split (serializeList doc) = some (serializeList doc, []))
+    (hh : NoHeld doc)
     (hdom : InDomain htmlTokenize vtU doc f) :
     (Chain.new noCodec lower [f] [] : Chain Unit Unit).run htmlTokenize ev noCodec [serializeList doc] =
       serializeList (editD (decOf ev) doc f) :=
-  filter_spec htmlTokenize ev vtU lower vtU_lossless doc f hdom (tokAgree_of_laws simpleLaws doc hs hu)
+  filter_spec htmlTokenize ev vtU lower vtU_lossless doc f hdom (tokAgree_of_laws simpleLaws doc hs hu hh)
+
+/-- `NoHeld doc` (the last token of the document is not a text holding `<`, which `filter` would keep back until `end`;
+decidable) holds whenever no TOP-LEVEL text node holds `<` — in particular for every document whose last node is an
+element, a comment or a declaration, and for every document whose texts are free of `<`. -/
+theorem noHeld_of_top_texts (doc : List Node) (h : ∀ n ∈ doc, NoLtText n) : NoHeld doc :=
+  noHeld_of_topTexts doc h
 
 /-- … and for several filters, when every intermediate document is again `Simple` (`StepsSimple`). -/
 theorem compose_universal (ev : Bytes → Bytes → Bool) (lower : String → String) (doc : List Node)
